@@ -7,6 +7,7 @@ func registerAll() {
 	registerWorld(obsWorld{})
 	registerWorld(decWorld{})
 	registerWorld(regWorld{})
+	registerWorld(concWorld{})
 
 	stubsEvid := []string{"FaultySigner (wrapper around the real go-cose signer)", "deterministic crypto.Signer wrapper over pool keys",
 		"sim extension profiles XP1/XP2 (thin structs over the real encoding helpers, fault switch)", "committed key pool"}
@@ -110,5 +111,16 @@ func registerAll() {
 		Real: commonReal, Stubs: stubsReg,
 		Assumptions: []string{"documents the property leaves open (profile claim null in CBOR, both profiles' members, a registered name under another profile's member) get only the weak invariant: never decoded as a profile other than a declared one or the default"},
 		MustProbes: []string{"accepted_token_profile_checked", "dispatch_expect_error", "dispatch_expect_p1", "dispatch_expect_p2", "dispatch_expect_xp1", "dispatch_expect_xp2", "dispatch_expect_own", "dispatch_weak"},
+	}
+
+	props["C17"] = &propSpec{
+		ID: "C17", Worlds: []string{"W-CONC"}, QuickRuns: 320, ThoroughRuns: 40000, Isolated: true, MinExecs: 120,
+		Rule: "one run = 2..16 (thorough: up to 64) client tasks, each a real goroutine running 3..10 read-side operations (NewClaims; decode CBOR / JSON / COSE with and without validation; build+observe; Sign; Sign+Verify on private objects - and Validate, all getters, CBOR / JSON / validating encoders, Verify, Evidence.MarshalJSON, full observation on 1..4 SHARED claims-sets and decoded Evidence, read-only), under a seeded schedule: the PRNG names the next task at every one of the ~990 yield points woven before every statement of the library (switch probability 1, 1/4 or 1/32 per yield, or a PCT priority schedule with 1..3 change points); the race detector watches the race-instrumented library while the scheduler itself stays invisible to it; the same task lists then run sequentially on freshly built objects. " +
+			"non-trivial = at least one switch into a task that was itself in the middle of a library call; distinct = distinct hash of (recorded schedule as run-length list of task ids per yield, operation lists)",
+		Real: commonReal, Stubs: []string{"turn scheduler (simrt, //go:norace, Gosched hand-over, GOMAXPROCS=1)", "deterministic crypto.Signer wrapper over pool keys", "sim extension profiles XP1/XP2", "one child process per trace"},
+		Assumptions: []string{"yield points exist in the two library packages only: calls into dependencies are atomic steps (their races would still be reported by the happens-before detector, but are not interleaved)",
+			"the Go race detector keeps a bounded access history per memory word; runs are short to keep the window small, and the result-equality oracle does not depend on it",
+			"operations are pure functions of private or read-only shared inputs (signatures are deterministic), so concurrent and sequential results must be equal"},
+		MustProbes: []string{"switch_into_task_mid_call", "overlap_on_same_shared_object", "switches"},
 	}
 }
